@@ -75,6 +75,7 @@ def replay_chunk(args):
     d = tempfile.mkdtemp(prefix="c01-", dir=workdir)
     try:
         for ci, case in enumerate(cases):
+            core.tick(case, 180)
             prog = case["prog"]
             rnd = random.Random(f"{seed}-{ci}-{len(prog)}")
             text, lines_of = render.render_c(prog, seed=rnd.random(), fortran=(ext != ".c"))
